@@ -10,6 +10,8 @@ PROP = dict(
         dict(module="MCCodecs", cfg="MCCodecs_asbuilt.cfg", expect_violation="PropertyHolds", timeout=300),
         # non-vacuity of Part A2: a buffer shared between successive Consume calls must violate "never alias"
         dict(module="MCCodecs", cfg="MCCodecs_mut_pooled.cfg", expect_violation="PropertyHolds", timeout=300),
+        # non-vacuity of the error-identity dimension: taking io.ErrUnexpectedEOF for the end of the stream must violate
+        dict(module="MCCodecs", cfg="MCCodecs_mut_ueof.cfg", expect_violation="PropertyHolds", timeout=300),
     ],
     gen=dict(module="GenCodecs", cfg=dict(quick="GenCodecs_quick.cfg", thorough="GenCodecs_thorough.cfg"),
              workers=1, timeout=1500),
